@@ -340,4 +340,433 @@ example : fmtFixed 6 (-1 / 3) = "-0.333333".toList := by decide +kernel
 example : fmtFixed 5 (4000011 / 200000) = "20.00006".toList := by decide +kernel   -- tie 20.000055: to even
 example : parseDec "-0.333333".toList = some (-333333 / 1000000) := by decide +kernel
 
+/-! ### atom lines -/
+
+theorem absR_eq (x : Rat) : absR x = |x| := by
+  unfold absR
+  split_ifs with h
+  · rw [abs_of_neg h]
+  · rw [abs_of_nonneg (not_lt.mp h)]
+
+/-- a value printed with `nd` places is, for the reader, a numeral within `tol` whenever ½·10^(−nd) ≤ tol -/
+theorem numClose_fixed (nd : Nat) (x tol : Rat) (h : 1 / (2 * (10 : Rat) ^ nd) ≤ tol) :
+    numCloseB tol x (fmtFixed nd x) = true := by
+  obtain ⟨v, hv, hc⟩ := fmtFixed_close nd x
+  simp only [numCloseB, hv, decide_eq_true_eq, absR_eq]
+  exact le_trans hc h
+
+theorem parseDec_fmtNat (n : Nat) : parseDec (fmtNat n) = some (n : Rat) := by
+  obtain ⟨d, ds, hd⟩ := natDigits_cons n
+  have hdl : d < 10 := natDigits_lt _ d (by rw [hd]; simp)
+  have hne : digitChar d ≠ '-' := (digit_ok d hdl).2.2.2.2
+  have e : fmtNat n = digitChar d :: ds.map digitChar := by simp [fmtNat, hd]
+  have h1 : parseDec (fmtNat n) = parseUns (fmtNat n ++ []) 0 := by
+    rw [e]; simp [parseDec, hne]
+  rw [h1]
+  unfold fmtNat
+  rw [parseUns_digits _ (natDigits_lt _), accDigits_natDigits]
+  simp [parseUns]
+
+theorem numClose_nat (n : Nat) : numCloseB 0 (n : Rat) (fmtNat n) = true := by
+  simp [numCloseB, parseDec_fmtNat, absR]
+
+theorem fmtNat_blankfree (n : Nat) : ' ' ∉ fmtNat n := by
+  intro h
+  simp only [fmtNat, List.mem_map] at h
+  obtain ⟨d, hd, he⟩ := h
+  exact (digit_ok d (natDigits_lt _ d hd)).2.2.2.1 he
+
+theorem fmtNat_ne_nil (n : Nat) : fmtNat n ≠ [] := by
+  obtain ⟨d, ds, hd⟩ := natDigits_cons n
+  simp [fmtNat, hd]
+
+theorem fmtFixed_blankfree (nd : Nat) (x : Rat) : ' ' ∉ fmtFixed nd x := by
+  intro h
+  simp only [fmtFixed, List.mem_append, List.mem_cons, List.mem_map] at h
+  rcases h with h | h | h | ⟨d, hd, he⟩
+  · split_ifs at h <;> simp at h
+  · exact fmtNat_blankfree _ h
+  · exact absurd h (by decide)
+  · exact (digit_ok d (fixDigits_lt _ _ d hd)).2.2.2.1 he
+
+theorem fmtFixed_ne_nil (nd : Nat) (x : Rat) : fmtFixed nd x ≠ [] := by
+  intro h
+  have : '.' ∈ fmtFixed nd x := by simp [fmtFixed]
+  rw [h] at this
+  simp at this
+
+/-- a string argument is a non-empty word (atom names are) -/
+def Val.ok : Val → Prop
+  | .str s => s ≠ [] ∧ ' ' ∉ s
+  | _ => True
+
+theorem fieldText_ok (p : Option Nat) (v : Val) (h : v.ok) : fieldText p v ≠ [] ∧ ' ' ∉ fieldText p v := by
+  cases v with
+  | str s => exact h
+  | int n => exact ⟨fmtNat_ne_nil n, fmtNat_blankfree n⟩
+  | num x => exact ⟨fmtFixed_ne_nil _ x, fmtFixed_blankfree _ x⟩
+
+theorem chunksOf_toks (fmt : List Piece) (vals : List Val) (cs : List Chunk) (h : chunksOf fmt vals = some cs)
+    (hok : ∀ v ∈ vals, v.ok) : toksOf cs = fieldTexts fmt vals ∧ ∀ c ∈ cs, ' ' ∉ c.t := by
+  induction fmt generalizing vals cs with
+  | nil =>
+    simp only [chunksOf, Option.some.injEq] at h
+    subst h
+    simp [toksOf, fieldTexts]
+  | cons p ps ih =>
+    cases p with
+    | lit n =>
+      simp only [chunksOf, Option.map_eq_some_iff] at h
+      obtain ⟨cs', h', rfl⟩ := h
+      obtain ⟨i1, i2⟩ := ih vals cs' h' hok
+      refine ⟨by simp [toksOf, fieldTexts, i1], ?_⟩
+      intro c hc
+      simp only [List.mem_cons] at hc
+      rcases hc with rfl | hc
+      · simp
+      · exact i2 c hc
+    | fld l w pr =>
+      cases vals with
+      | nil => simp [chunksOf] at h
+      | cons v vs =>
+        simp only [chunksOf, Option.map_eq_some_iff] at h
+        obtain ⟨cs', h', rfl⟩ := h
+        obtain ⟨i1, i2⟩ := ih vs cs' h' (fun u hu => hok u (by simp [hu]))
+        obtain ⟨o1, o2⟩ := fieldText_ok pr v (hok v (by simp))
+        have ht : (chunkOf l w pr v).t = fieldText pr v := by
+          unfold chunkOf; split_ifs <;> rfl
+        refine ⟨by simp [toksOf, fieldTexts, ht, o1, i1], ?_⟩
+        intro c hc
+        simp only [List.mem_cons] at hc
+        rcases hc with rfl | hc
+        · rw [ht]; exact o2
+        · exact i2 c hc
+
+/-- **fmt_tokens**: the tokens of `fmt.format(*vals)` are the field texts, for ANY format of blank-separated fields,
+    provided no two fields fuse (`sep`, a decidable predicate on the padded fields) -/
+theorem fmt_tokens (fmt : List Piece) (vals : List Val) (cs : List Chunk) (h : chunksOf fmt vals = some cs)
+    (hok : ∀ v ∈ vals, v.ok) (hs : sep false cs = true) :
+    splitWs (renderChunks cs) = fieldTexts fmt vals := by
+  obtain ⟨h1, h2⟩ := chunksOf_toks fmt vals cs h hok
+  rw [splitWs, split_chunks cs [] h2 (by simpa using hs), h1]
+  simp [flush]
+
+/-- the layout the theorems below are about, re-read from atoms/atom.py on every run: which field has which
+    precision. (An edited precision or a dropped field changes the left-hand side.) -/
+theorem extracted_layout :
+    (isoFmt.filterMap fun p => match p with | .fld _ _ pr => some pr | .lit _ => none) =
+        [none, none, some 6, some 6, some 6, some 5, some 5] ∧
+    (anisFmt.filterMap fun p => match p with | .fld _ _ pr => some pr | .lit _ => none) =
+        [none, none, some 6, some 6, some 6, some 5, some 5, some 5, some 5, some 5, some 5, some 5] ∧
+    (qpeakFmt.filterMap fun p => match p with | .fld _ _ pr => some pr | .lit _ => none) =
+        [none, none, some 4, some 4, some 4, some 5, some 2, some 2] := by decide
+
+/-- **atom_render_close** (anisotropic layout): the written line reads back as the same name and scattering-factor
+    number, coordinates within 1e-6, occupation code and the six U values within 1e-5 — for ALL values.
+    Hypotheses: the name is a word; `sep`: the padded fields do not fuse. `sep` is needed: with the format strings of
+    atom.py a coordinate ≤ -1000 fills its twelve columns and fuses with its neighbour (example below). -/
+theorem atom_render_close_aniso (name : Tok) (sfac : Nat) (x y z sof u1 u2 u3 u4 u5 u6 : Rat)
+    (hname : name ≠ [] ∧ ' ' ∉ name) (cs : List Chunk)
+    (h : chunksOf anisFmt ([.str name, .int sfac] ++ [x, y, z].map Val.num ++ [.num sof] ++ [u1, u2, u3, u4, u5, u6].map Val.num) = some cs)
+    (hs : sep false cs = true) :
+    specAtomLine (splitWs (renderChunks cs)) name sfac
+      [(x, tolCoord), (y, tolCoord), (z, tolCoord), (sof, tolU), (u1, tolU), (u2, tolU), (u3, tolU), (u4, tolU),
+       (u5, tolU), (u6, tolU)] = true := by
+  rw [fmt_tokens _ _ cs h (by intro v hv; simp at hv; rcases hv with rfl | rfl | rfl | rfl | rfl | rfl | rfl | rfl | rfl | rfl | rfl | rfl <;> simp [Val.ok, hname]) hs]
+  have c6 : (1 : Rat) / (2 * (10 : Rat) ^ 6) ≤ tolCoord := by norm_num [tolCoord]
+  have c5 : (1 : Rat) / (2 * (10 : Rat) ^ 5) ≤ tolU := by norm_num [tolU]
+  simp [anisFmt, fieldTexts, fieldText, specAtomLine, closeAll, numClose_nat, numClose_fixed _ _ _ c6, numClose_fixed _ _ _ c5]
+
+/-- **atom_render_close** (isotropic layout; `Atom.uvals` is `[U, 0, 0, 0, 0, 0]`, the format takes the first) -/
+theorem atom_render_close_iso (name : Tok) (sfac : Nat) (x y z sof u : Rat) (rest : List Rat)
+    (hname : name ≠ [] ∧ ' ' ∉ name) (cs : List Chunk)
+    (h : chunksOf isoFmt ([.str name, .int sfac] ++ [x, y, z].map Val.num ++ [.num sof] ++ (u :: rest).map Val.num) = some cs)
+    (hs : sep false cs = true) :
+    specAtomLine (splitWs (renderChunks cs)) name sfac
+      [(x, tolCoord), (y, tolCoord), (z, tolCoord), (sof, tolU), (u, tolU)] = true := by
+  rw [fmt_tokens _ _ cs h (by
+    intro v hv
+    simp only [List.map_cons, List.map_nil, List.cons_append, List.nil_append, List.mem_cons, List.mem_map] at hv
+    rcases hv with rfl | rfl | rfl | rfl | rfl | rfl | rfl | ⟨r, _, rfl⟩ <;> simp [Val.ok, hname]) hs]
+  have c6 : (1 : Rat) / (2 * (10 : Rat) ^ 6) ≤ tolCoord := by norm_num [tolCoord]
+  have c5 : (1 : Rat) / (2 * (10 : Rat) ^ 5) ≤ tolU := by norm_num [tolU]
+  simp [isoFmt, fieldTexts, fieldText, specAtomLine, closeAll, numClose_nat, numClose_fixed _ _ _ c6, numClose_fixed _ _ _ c5]
+
+/-- the hypotheses of the atom theorems as one executable test -/
+def sepOK (fmt : List Piece) (vals : List Val) : Bool :=
+  match chunksOf fmt vals with
+  | some cs => sep false cs
+  | none => false
+
+def exAniso : List Val :=
+  [.str "C4".toList, .int 10] ++ [(1 : Rat) / 10, -1 / 5, 3 / 10].map Val.num ++ [.num (-31)] ++
+    [(2 : Rat) / 100, 3 / 100, 4 / 100, 1 / 1000, -2 / 1000, 3 / 1000].map Val.num
+
+/-- a concrete anisotropic atom meets the hypotheses -/
+example : sepOK anisFmt exAniso = true := by decide +kernel
+example : sepOK isoFmt ([.str "H1A".toList, .int 2] ++ [(1 : Rat) / 10, -1 / 5, 3 / 10].map Val.num ++ [.num 11] ++ [Val.num (-6 / 5)]) = true := by
+  decide +kernel
+
+/-- `sep` is needed: x = -1000.5 fills the twelve columns of `{:>12.6f}`, fuses with the scattering-factor number and
+    the line no longer reads back (CPython prints the same fused text `C4   10-1000.500000 ...`) -/
+example :
+    let vals := [.str "C4".toList, .int 10] ++ [(-2001 : Rat) / 2, -1 / 5, 3 / 10].map Val.num ++ [.num (-31)] ++
+      [(2 : Rat) / 100, 3 / 100, 4 / 100, 1 / 1000, -2 / 1000, 3 / 1000].map Val.num
+    sepOK anisFmt vals = false ∧
+      (renderFmt anisFmt vals).map (fun l => (splitWs l).length) = some 11 := by decide +kernel
+
+/-! #### Q-peaks — open finding `C01|qpeak|U-replaced`, `…|coordinate-rounded-to-4-decimals`, `…|peak-height-rounded-…` -/
+
+theorem roundHalfEven_int (k : Int) : roundHalfEven (k : Rat) = k := by
+  simp [roundHalfEven, Rat.floor_intCast]
+
+/-- a value that has at most `nd` decimals is written exactly -/
+theorem numClose_fixed_exact (nd : Nat) (x tol : Rat) (hx : ∃ k : Int, x * (10 : Rat) ^ nd = (k : Rat)) (ht : 0 ≤ tol) :
+    numCloseB tol x (fmtFixed nd x) = true := by
+  obtain ⟨k, hk⟩ := hx
+  have hP : (0 : Rat) < (10 : Rat) ^ nd := by positivity
+  have e : ((roundHalfEven (x * (10 : Rat) ^ nd) : Int) : Rat) / (10 : Rat) ^ nd = x := by
+    rw [hk, roundHalfEven_int, ← hk]; field_simp
+  simp only [numCloseB, fmtFixed_parse, e, sub_self, decide_eq_true_eq, absR]
+  simpa using ht
+
+/-- (i) the full-strength statement for Q-peak lines — FALSE for the code as it is (witness below):
+    every Q-peak reads back with coordinates within 1e-6, occupation code, U and peak height within 1e-5. -/
+def QpeakStatement : Prop :=
+  ∀ (a : AtomV) (x y z : Rat) (line : List Char), a.qpeak = true → a.xyz = [x, y, z] → renderAtom a = some line →
+    specAtomLine (splitWs line) a.name a.sfac
+      [(x, tolCoord), (y, tolCoord), (z, tolCoord), (a.sof, tolU), (a.us.headD 0, tolU), (a.height, tolU)] = true
+
+/-- (ii) what IS proved: a Q-peak as SHELXL writes it (coordinates with four decimals, height with two) whose U is the
+    constant `c` that the printer writes (two decimals, today 0.04) reads back unchanged. The three extra hypotheses
+    exclude exactly the three recorded signatures. -/
+theorem qpeak_render_partial (name : Tok) (sfac : Nat) (x y z sof u c hgt : Rat)
+    (hname : name ≠ [] ∧ ' ' ∉ name) (cs : List Chunk)
+    (hx : ∃ k : Int, x * (10 : Rat) ^ 4 = k) (hy : ∃ k : Int, y * (10 : Rat) ^ 4 = k) (hz : ∃ k : Int, z * (10 : Rat) ^ 4 = k)
+    (hh : ∃ k : Int, hgt * (10 : Rat) ^ 2 = k) (hc : ∃ k : Int, c * (10 : Rat) ^ 2 = k) (hu : c = u)
+    (h : chunksOf qpeakFmt ([.str name, .int sfac] ++ [x, y, z].map Val.num ++ [.num sof] ++ [.num c, .num hgt]) = some cs)
+    (hs : sep false cs = true) :
+    specAtomLine (splitWs (renderChunks cs)) name sfac
+      [(x, tolCoord), (y, tolCoord), (z, tolCoord), (sof, tolU), (u, tolU), (hgt, tolU)] = true := by
+  rw [fmt_tokens _ _ cs h (by intro v hv; simp at hv; rcases hv with rfl | rfl | rfl | rfl | rfl | rfl | rfl | rfl <;> simp [Val.ok, hname]) hs]
+  have t6 : (0 : Rat) ≤ tolCoord := by norm_num [tolCoord]
+  have t5 : (0 : Rat) ≤ tolU := by norm_num [tolU]
+  have c5 : (1 : Rat) / (2 * (10 : Rat) ^ 5) ≤ tolU := by norm_num [tolU]
+  subst hu
+  simp [qpeakFmt, fieldTexts, fieldText, specAtomLine, closeAll, numClose_nat, numClose_fixed _ _ _ c5,
+    numClose_fixed_exact 4 _ _ hx t6, numClose_fixed_exact 4 _ _ hy t6, numClose_fixed_exact 4 _ _ hz t6,
+    numClose_fixed_exact 2 _ _ hh t5, numClose_fixed_exact 2 _ _ hc t5]
+
+def qpeakWitness : AtomV :=
+  ⟨"Q1".toList, 1, [1234 / 10000, 2345 / 10000, 3456 / 10000], 11, [5 / 100, 123 / 100, 0, 0, 0, 0], true, 123 / 100⟩
+
+/-- (iii) witness, replayed on the implementation in every run (`FIXED_CASES` of harness/props/c01.py):
+    `Q1 1 0.1234 0.2345 0.3456 11.0 0.05 1.23` is written with U = 0.04 -/
+theorem qpeak_fails_on : ¬ QpeakStatement := by
+  intro h
+  have := h qpeakWitness (1234 / 10000) (2345 / 10000) (3456 / 10000)
+    "Q1   1   0.1234    0.2345    0.3456   11.00000  0.04      1.23     ".toList rfl rfl (by decide +kernel)
+  revert this
+  decide +kernel
+
+/-! ### F3 — the SFAC table -/
+
+theorem readSfac_append (a b : List (List Tok)) : readSfac (a ++ b) = readSfac a ++ readSfac b := by
+  induction a with
+  | nil => rfl
+  | cons l ls ih => simp [readSfac, ih]
+
+theorem readSfac_flushEls (els : List Tok) (out : List (List Tok)) (h : els.all isWord = true) :
+    readSfac (flushEls els out) = readSfac out ++ els.map SfEntry.plain := by
+  unfold flushEls
+  split_ifs with he
+  · simp [he]
+  · have : allAlpha els = true := by
+      simp only [allAlpha, h, Bool.true_and]
+      cases els with
+      | nil => exact absurd rfl he
+      | cons a b => rfl
+    simp [readSfac_append, readSfac, this]
+
+/-- entries of a valid file: an element symbol is a word of letters; an explicit entry is not a list of words -/
+def sfValidB : SfEntry → Bool
+  | .plain e => isWord e
+  | .expl ts => !allAlpha ts
+
+def SfValid (e : SfEntry) : Prop := sfValidB e = true
+
+theorem sfacGo_read (es : List SfEntry) (els : List Tok) (out lines : List (List Tok))
+    (hv : ∀ e ∈ es, SfValid e) (hels : els.all isWord = true) (h : sfacGo es els out = some lines) :
+    readSfac lines = readSfac out ++ els.map SfEntry.plain ++ es := by
+  induction es generalizing els out with
+  | nil =>
+    simp only [sfacGo, Option.some.injEq] at h
+    subst h
+    simp [readSfac_flushEls _ _ hels]
+  | cons e r ih =>
+    have hr : ∀ e ∈ r, SfValid e := fun x hx => hv x (by simp [hx])
+    cases e with
+    | plain el =>
+      simp only [sfacGo] at h
+      split_ifs at h with hm
+      have hw : isWord el = true := by simpa [SfValid, sfValidB] using hv (.plain el) (by simp)
+      rw [ih (els ++ [el]) out hr (by simp [hels, hw]) h]
+      simp
+    | expl ts =>
+      simp only [sfacGo] at h
+      have hx : allAlpha ts = false := by simpa [SfValid, sfValidB] using hv (.expl ts) (by simp)
+      rw [ih [] _ hr (by simp) h]
+      simp [readSfac_append, readSfac_flushEls _ _ hels, readSfac, hx]
+
+/-- **sfac_render_table** (F3, repaired printer): whatever `SFACTable.__repr__` prints re-lexes to the same entries —
+    plain elements and explicit 15-field entries, in order, over any number of lines. -/
+theorem sfac_render_table (es : List SfEntry) (lines : List (List Tok)) (hv : ∀ e ∈ es, SfValid e)
+    (h : renderSfac es = some lines) : readSfac lines = es := by
+  have := sfacGo_read es [] [] lines hv (by simp) h
+  simpa [readSfac] using this
+
+def exSfac : List SfEntry :=
+  [.plain "C".toList, .plain "H".toList,
+   .expl (["XX", "1.1", "2.1", "3.1", "4.1", "5.1", "6.1", "7.1", "8.1", "9.1", "0.11", "0.12", "13.1", "0.77", "12.5"].map String.toList),
+   .plain "O".toList]
+
+example : (∀ e ∈ exSfac, SfValid e) ∧ (renderSfac exSfac).isSome = true := by
+  refine ⟨?_, by decide +kernel⟩
+  intro e he
+  simp only [exSfac, List.mem_cons, List.not_mem_nil, or_false] at he
+  rcases he with rfl | rfl | rfl | rfl <;> (unfold SfValid; decide +kernel)
+
+/-- the printer as it was before repair `C01_1_sfac_explicit` loses the coefficients: the same table comes back with
+    an element list in place of the explicit entry (kept as the record of the defect; replayed by the harness) -/
+theorem sfac_old_printer_fails_on : (renderSfacOld exSfac).map readSfac ≠ some exSfac := by decide +kernel
+
+/-- a keyword followed by blank-separated parameters: the tokens are the keyword and the parameters -/
+theorem split_kw_join (kw : Tok) (j k : Nat) (ts : List Tok) (hkw : kw ≠ [] ∧ ' ' ∉ kw)
+    (hne : ∀ t ∈ ts, t ≠ []) (hbf : ∀ t ∈ ts, ' ' ∉ t) :
+    splitWs (kw ++ (blanks (j + 1) ++ joinBl k ts)) = kw :: ts := by
+  rw [splitWs, splitGo_tok _ _ _ hkw.2, splitGo_blanks]
+  simp only [Nat.add_one_ne_zero, if_false, List.append_nil]
+  rw [flush_reverse _ hkw.1]
+  have := split_join k ts hne hbf
+  rw [splitWs] at this
+  rw [this]; rfl
+
+/-- the text of a SFAC line has the tokens `SFAC` + parameters -/
+theorem sfac_line_tokens (params : List Tok) (hne : ∀ t ∈ params, t ≠ []) (hbf : ∀ t ∈ params, ' ' ∉ t) :
+    splitWs (sfacLineText params) = "SFAC".toList :: params := by
+  have e : "SFAC ".toList = "SFAC".toList ++ blanks (0 + 1) := by decide
+  have : sfacLineText params = "SFAC".toList ++ (blanks (0 + 1) ++ joinBl 1 params) := by
+    unfold sfacLineText; rw [e, List.append_assoc]
+  rw [this, split_kw_join _ _ _ _ (by decide) hne hbf]
+
+/-! ### F4 — FVAR in chunks, UNIT, the printer overrides -/
+
+theorem chunksGo_flatten {α} (n : Nat) (hn : 1 ≤ n) (f : Nat) (l : List α) (hf : l.length ≤ f) :
+    (chunksGo n f l).flatten = l := by
+  induction f generalizing l with
+  | zero =>
+    have : l = [] := List.eq_nil_of_length_eq_zero (by omega)
+    simp [chunksGo, this]
+  | succ f ih =>
+    simp only [chunksGo]
+    split_ifs with hl
+    · simp [hl]
+    · have hlen : 0 < l.length := List.length_pos_iff.mpr hl
+      rw [List.flatten_cons, ih (l.drop n) (by simp; omega), List.take_append_drop]
+
+theorem fvar_chunk_pos : 1 ≤ fvarChunk := by decide
+
+/-- **fvar_render_list** (F4): the values of the printed FVAR lines, taken in order, are the free variables —
+    for any number of them (chunk size re-read from `FVARs.__str__`) -/
+theorem fvar_render_list (vals : List Tok) : readFvar (renderFvar vals) = vals := by
+  have : (renderFvar vals).map List.tail = chunks fvarChunk vals := by
+    simp [renderFvar, List.map_map, Function.comp_def]
+  rw [readFvar, this, chunks, chunksGo_flatten _ fvar_chunk_pos _ _ (Nat.le_refl _)]
+
+theorem fvar_line_tokens (c : List Tok) (hne : ∀ t ∈ c, t ≠ []) (hbf : ∀ t ∈ c, ' ' ∉ t) :
+    splitWs (fvarLineText c) = "FVAR".toList :: c := by
+  have e : "FVAR   ".toList = "FVAR".toList ++ blanks (2 + 1) := by decide
+  have : fvarLineText c = "FVAR".toList ++ (blanks (2 + 1) ++ joinBl 2 c) := by
+    unfold fvarLineText; rw [e, List.append_assoc]
+  rw [this, split_kw_join _ _ _ _ (by decide) hne hbf]
+
+example : (renderFvar (["0.5", "0.6", "0.7", "0.8", "0.9", "0.11", "0.12", "0.13", "0.14"].map String.toList)).length = 2 := by
+  decide +kernel
+
+theorem parseUns_fmtNat (n : Nat) : parseUns (fmtNat n) 0 = some (n : Rat) := by
+  have := parseUns_digits (natDigits n) (natDigits_lt n) [] 0
+  rw [List.append_nil] at this
+  rw [fmtNat, this, accDigits_natDigits]; simp [parseUns]
+
+theorem parseDec_fmtInt (n : Int) : parseDec (fmtInt n) = some (n : Rat) := by
+  unfold fmtInt
+  by_cases h : n < 0
+  · simp only [h, if_true, List.cons_append, List.nil_append, parseDec, parseUns_fmtNat, Option.map_some]
+    rw [natAbs_cast_nonpos n (by omega)]; simp
+  · simp only [h, if_false, List.nil_append, parseDec_fmtNat]
+    rw [natAbs_cast_nonneg n (by omega)]
+
+/-- `_fmt_number` reads back as the same number; `hpr` is the ASSUMPTION on CPython's `repr(float)` -/
+theorem fmtNum_parse (pr : Rat → Tok) (hpr : ∀ x, parseDec (pr x) = some x) (x : Rat) :
+    parseDec (fmtNum pr x) = some x := by
+  unfold fmtNum
+  split_ifs with h
+  · rw [parseDec_fmtInt, Rat.coe_int_num_of_den_eq_one h]
+  · exact hpr x
+
+/-- **unit_render**: every UNIT number reads back as the same number (no separator, no digit lost) -/
+theorem unit_render (pr : Rat → Tok) (hpr : ∀ x, parseDec (pr x) = some x) (vals : List Rat) :
+    (renderUnit pr vals).tail.map parseDec = vals.map some := by
+  simp [renderUnit, List.map_map, Function.comp_def, fmtNum_parse pr hpr]
+
+example : fmtNum (fun _ => []) 1200 = "1200".toList ∧ fmtNum (fun _ => []) 1234567 = "1234567".toList := by decide +kernel
+
+/-- **size_render** (repaired printer): the dimensions that were given are written, also fewer than three or a zero -/
+theorem size_render (pr : Rat → Tok) (hpr : ∀ x, parseDec (pr x) = some x) (nums : List Rat) (h : nums.length ≤ 3) :
+    (renderSize pr nums).tail.map parseDec = nums.map some := by
+  simp [renderSize, List.take_of_length_le h, List.map_map, Function.comp_def, fmtNum_parse pr hpr]
+
+/-- **acta_render** (repaired printer): 2θ and the NOHKL flag are both written (at most one number: the syntax) -/
+theorem acta_render (pr : Rat → Tok) (nums : List Rat) (words : List Tok) (h : nums.length ≤ 1) :
+    renderActa pr nums words = "ACTA".toList :: (nums.map (fmtNum pr) ++ words) := by
+  simp [renderActa, List.take_of_length_le h]
+
+/-- **stir_render**: `STIR sres` is written as `STIR sres 0.01` — the same instruction; `STIR sres step` unchanged.
+    (sres = 0 would be printed as an empty string: `sres ≠ 0`.) -/
+theorem stir_render (pr : Rat → Tok) (s : Rat) (hs : s ≠ 0) :
+    renderStir pr [s] = ["STIR".toList, pr s, pr (1 / 100)] ∧
+    (∀ t, renderStir pr [s, t] = ["STIR".toList, pr s, pr t]) ∧
+    SameInstr [0, 1 / 100] [s] [s, 1 / 100] := by
+  refine ⟨by simp [renderStir, hs], fun t => by simp [renderStir, hs], by simp [SameInstr, withDefaults]⟩
+
+/-- the values `WGHT._as_string` writes -/
+def wghtOut (nums : List Rat) : List Rat :=
+  let v := withDefaults wghtDefaults nums
+  if v.drop 2 = wghtDefaults.drop 2 then v.take 2 else v
+
+theorem renderWght_eq (pr : Rat → Tok) (nums : List Rat) : renderWght pr nums = "WGHT".toList :: (wghtOut nums).map pr := by
+  simp only [renderWght, wghtOut]
+  split_ifs <;> rfl
+
+/-- **wght_render** (repaired printer): whatever prefix form the input uses, the written parameters denote the same
+    weighting scheme (defaults may be added or, when all of c…f are the defaults, left out) -/
+theorem wght_render (nums : List Rat) (h : nums.length ≤ 6) : SameInstr wghtDefaults nums (wghtOut nums) := by
+  have hv : (withDefaults wghtDefaults nums).length = 6 := by
+    simp [withDefaults, wghtDefaults]; omega
+  have hlen : wghtDefaults.length = 6 := rfl
+  have hd6 : List.drop 6 wghtDefaults = [] := rfl
+  unfold SameInstr wghtOut
+  simp only
+  generalize withDefaults wghtDefaults nums = v at hv
+  split_ifs with hd
+  · have h2 : (v.take 2).length = 2 := by simp [hv]
+    simp only [withDefaults, hlen, h2]
+    rw [List.take_of_length_le (by rw [h2]; omega), ← hd, List.take_append_drop]
+  · simp only [withDefaults, hlen, hv]
+    rw [List.take_of_length_le (by omega), hd6, List.append_nil]
+
+example : wghtOut [1 / 10, 1 / 5, 3 / 10, 0, -3 / 10, 33333 / 100000] = [1 / 10, 1 / 5, 3 / 10, 0, -3 / 10, 33333 / 100000] := by
+  decide +kernel
+example : wghtOut [1 / 20] = [1 / 20, 0] := by decide +kernel
+
 end Shelx.C01
